@@ -74,7 +74,7 @@ func (u *Unit) execBuiltin(p *Path, x *ssa.Call, b *ssa.Builtin) {
 			ks := u.cx.Fresh("ks", ArrSort(SInt, ksort))
 			idx := u.cx.Fresh("ksidx", ArrSort(ksort, SInt))
 			nn := u.cx.Fresh("card", SInt)
-			for _, ax := range u.enumAxioms(mv, ks, idx, nn) {
+			for _, ax := range u.enumAxiomsP(mv, ks, idx, nn, false) {
 				p.assume(ax)
 			}
 			p.vals[x] = n.WithT(x.Type())
@@ -188,7 +188,7 @@ func (u *Unit) applyContract(p *Path, x *ssa.Call, callee *ssa.Function, bc *Bou
 	epoch := u.epochFor(p)
 	envFor := func(st, old *State, results []*Term) func(bool) *Env {
 		return func(fromIface bool) *Env {
-			return &Env{cx: u.cx, st: st, old: old, vars: u.v.contractVars(callee, bc.iface, fromIface, args, results), epoch: epoch}
+			return &Env{cx: u.cx, st: st, old: old, vars: u.v.contractVars(callee, bc.iface, fromIface, args, results), epochSt: epoch}
 		}
 	}
 	pre := p.st.Clone()
@@ -247,32 +247,13 @@ func (u *Unit) callOrdinal(in ssa.Instruction) string {
 
 // epochFor names the tree snapshot a callee's contract talks about: the entry tree when nothing the
 // recursive spec functions read has changed since entry, otherwise a snapshot of the current state.
-func (u *Unit) epochFor(p *Path) string {
-	changed := false
-	var key strings.Builder
+func (u *Unit) epochFor(p *Path) *State {
 	for _, cn := range sortedKeys(u.cx.treeReads) {
-		now := p.st.Get(u.cx, cn)
-		if !same(u.entry.Get(u.cx, cn), now) {
-			changed = true
+		if !same(u.entry.Get(u.cx, cn), p.st.Get(u.cx, cn)) {
+			return p.st.Clone()
 		}
-		key.WriteString(now.String())
-		key.WriteByte('|')
 	}
-	if !changed {
-		return ""
-	}
-	if u.cx.epochs == nil {
-		u.cx.epochs = map[string]*State{}
-		u.cx.epochKeys = map[string]string{}
-	}
-	k := key.String()
-	if e, ok := u.cx.epochKeys[k]; ok {
-		return e
-	}
-	e := fmt.Sprintf("e%d", len(u.cx.epochs)+1)
-	u.cx.epochKeys[k] = e
-	u.cx.epochs[e] = p.st.Clone()
-	return e
+	return nil
 }
 
 // treeStable (unused): recursive spec functions read the tree as it was at entry; a callee contract that
@@ -353,7 +334,7 @@ func (u *Unit) execInvoke(p *Path, x *ssa.Call) {
 	pre := p.st.Clone()
 	epoch := u.epochFor(p)
 	for _, cl := range c.Requires {
-		env := &Env{cx: u.cx, st: p.st, vars: u.v.ifaceInvokeVars(c, recv, args, nil, sig), epoch: epoch}
+		env := &Env{cx: u.cx, st: p.st, vars: u.v.ifaceInvokeVars(c, recv, args, nil, sig), epochSt: epoch}
 		g, err := env.EvalBool(cl.Expr)
 		if err != nil {
 			u.fail("requires %s of %s: %v", cl.Label, key, err)
@@ -386,7 +367,7 @@ func (u *Unit) execInvoke(p *Path, x *ssa.Call) {
 		rs = append(rs, u.cx.Fresh("ret_"+cc.Method.Name(), u.v.enc.SortOf(sig.Results().At(i).Type())).WithT(sig.Results().At(i).Type()))
 	}
 	for _, cl := range c.Ensures {
-		env := &Env{cx: u.cx, st: p.st, old: pre, vars: u.v.ifaceInvokeVars(c, recv, args, rs, sig), epoch: epoch}
+		env := &Env{cx: u.cx, st: p.st, old: pre, vars: u.v.ifaceInvokeVars(c, recv, args, rs, sig), epochSt: epoch}
 		g, err := env.EvalBool(cl.Expr)
 		if err != nil {
 			u.fail("ensures %s of %s: %v", cl.Label, key, err)
